@@ -625,6 +625,10 @@ class RecordContextMatcher:
             comptype = type(node.ops[0])
             comp = AST_COMPARATORS[comptype]
 
+            # A field that does not exist never matches, also if the other operand has its own idea about (in)equality
+            if comptype not in (ast.Is, ast.IsNot) and (isinstance(left, NoneObject) or isinstance(right, NoneObject)):
+                return False
+
             # Special case for __contains__, where we need to first unwrap all values matching the Type query
             if comptype in (ast.In, ast.NotIn) and isinstance(left, TypeMatcherInstance):
                 # Use _op() so that the values of nested records are considered too, like for the other comparators
